@@ -323,7 +323,11 @@ def draw_int(d):
 
 def draw_oid(d):
     first = d.int(0, 2)
-    second = d.int(0, 39) if (first < 2 or d.pct(60)) else d.pick([40, 47, 48, 100, 999, 2 ** 32])
+    if d.pct(30):
+        # the first two arcs share one subidentifier (40 * first + second): its boundaries 39 | 40, 79 | 80, 127 | 128
+        first, second = d.pick([(0, 0), (0, 39), (1, 0), (1, 39), (2, 0), (2, 0), (2, 1), (2, 39), (2, 40), (2, 47), (2, 48), (2, 16303), (2, 16304)])
+    else:
+        second = d.int(0, 39) if (first < 2 or d.pct(60)) else d.pick([40, 47, 48, 100, 999, 2 ** 32])
     n = d.pick([0, 0, 1, 2, 3, 4, 6, 8])
     rest = []
     for _ in range(n):
